@@ -7,7 +7,7 @@ from .sql_lex import str_value
 
 _UNIT = {"YEAR": (12, 0), "MONTH": (1, 0), "DAY": (0, 86400), "HOUR": (0, 3600),
          "MINUTE": (0, 60), "SECOND": (0, 1)}
-_DUR = re.compile(r"([+-])?P(?:(\d+)Y)?(?:(\d+)M)?(?:(\d+)D)?(?:T(?:(\d+)H)?(?:(\d+)M)?(?:(\d+(?:\.\d+)?)S)?)?$")
+_DUR = re.compile(r"([+-])?P(?:(\d+)Y)?(?:(\d+)M)?(?:(\d+)D)?(?:T(?:(\d+)H)?(?:(\d+)M)?(?:(\d+(?:\.\d+)?)S)?)?$", re.ASCII)
 
 
 def duration_value(text):
